@@ -66,6 +66,7 @@ type Contract struct {
 	HasAssigns bool
 	Loops    map[int]*LoopSpec
 	Lets     []LetDef
+	Evals    []LetDef
 	Flags    map[string]string
 	File     string
 	Line     int
@@ -101,7 +102,7 @@ func NewSpecSet() *SpecSet {
 	return &SpecSet{SpecFuncs: map[string]*SpecFunc{}, GhostVars: map[string]*GhostVar{}, AxiomPkg: map[*Clause]string{}}
 }
 
-var keywordRe = regexp.MustCompile(`^(package|func|prop|mode|requires|ensures|guarantee|assigns|loop|let|trusted|pure|maypanic|spec|ghost|axiom|lemma|end|noinline|inline|concurrent|safety|flag|terminates)\b`)
+var keywordRe = regexp.MustCompile(`^(package|func|prop|mode|requires|ensures|guarantee|assigns|loop|let|eval|trusted|pure|maypanic|spec|ghost|axiom|lemma|end|noinline|inline|concurrent|safety|flag|terminates)\b`)
 
 // ParseSpecFile reads //@ lines from a Go file or a .gospec file.
 // defaultPkg is the package path of the directory for in-repo contract files.
@@ -296,6 +297,13 @@ func (ss *SpecSet) ParseSpecFile(path, defaultPkg string) {
 				default:
 					errf(l, "unknown loop clause %q", fs[1])
 				}
+			case "eval":
+				i := strings.Index(rest, "=")
+				if i < 0 {
+					errf(l, "bad eval")
+					continue
+				}
+				cur.Evals = append(cur.Evals, LetDef{Name: strings.TrimSpace(rest[:i]), Expr: parse(l, strings.TrimSpace(rest[i+1:])), Text: strings.TrimSpace(rest[i+1:])})
 			case "let":
 				i := strings.Index(rest, "=")
 				if i < 0 {
